@@ -549,6 +549,11 @@ class Case(object):
                 continue
             # ---- C18/C08 frame: the wrapper never rebinds the archive slots
             ob('C08', 'frame.archive_binding', self.binding_ok(pre, post))
+            # ---- C18: whatever a call stores, it stores under key(args) -- the term key()/lookup() are proved to use
+            xs = x_()
+            ob('C18', 'stored_under_key[mem]', forall([xs], z3.Implies(z3.And(post.mem.dom[xs], z3.Not(pre.mem.dom[xs])), z3.And(kd, xs == key))))
+            ob('C18', 'stored_under_key[archive]', forall([xs], z3.Implies(z3.And(post.A.dom[xs], z3.Not(pre.A.dom[xs])),
+                                                                           z3.Or(pre.mem.dom[xs], z3.And(kd, xs == key)))))
             # ---- C02 / C12: evaluations
             ob('C02', 'evals.at_most_once', len(users) <= 1)
             for e in users:
